@@ -61,6 +61,9 @@ func genC06(c *Ctx) {
 			}
 		}
 	}
+	// slow consumers: every worker busy and the item channel full for more than a second at a stretch - the element the
+	// producer holds meanwhile is still owed to a consumer
+	emit(true, "ccons c=1 n=5 sync=0 mg=0 cbms=1050 script=-")
 	// nil is a result: concurrent map to a pointer type whose mapper returns nil for every third element
 	for cc := 1; cc <= maxC; cc++ {
 		for _, n := range []int{0, 1, 2, 3, 5, 4*cc + 1} {
